@@ -887,32 +887,44 @@ pub fn replay_file(path: &Path) -> i32 {
     if r.expect.clause.starts_with("process.") {
         // the plan kills its process: run it in a child
         let exe = std::env::var("VERIF_WORKER_EXE").map_or_else(|_| std::env::current_exe().unwrap(), PathBuf::from);
-        let mut ec = if r.expect.clause == "process.memcheck" { memcheck_cmd() } else { Command::new(exe) };
-        let child = ec
-            .arg("exec-plan")
-            .arg(path)
-            .env("ASAN_OPTIONS", "detect_leaks=0:abort_on_error=1:allocator_may_return_null=1")
-            .spawn();
-        let Ok(child) = child else {
-            eprintln!("harness error: cannot start the child process");
-            return 2;
-        };
-        return match wait_timeout(child, HANG_SECS + 10) {
-            Some(s) if s.success() => {
-                println!("the plan passes on this tree (expected {})", r.expect.clause);
-                0
+        // Two ways, tried in this order: (1) the recorded plan executed from the file; (2) the run
+        // regenerated from (property, tier, seed, run) exactly as the batch executed it — heap
+        // corruption that the allocator only notices for one particular allocation history (a
+        // double free under the plain build) needs the second.
+        let journal = scratch_dir().join(format!("replay-journal-{}.jsonl", std::process::id()));
+        for attempt in 0..2 {
+            let mut ec = if r.expect.clause == "process.memcheck" { memcheck_cmd() } else { Command::new(&exe) };
+            if attempt == 0 {
+                ec.arg("exec-plan").arg(path);
+            } else {
+                ec.arg("journal").arg(&r.property).arg(&r.tier).arg(r.seed.to_string()).arg(r.run.to_string()).arg(&journal);
             }
-            Some(s) => {
-                println!("reproduced: the child process died ({s:?})");
-                println!("VIOLATION property={} replay={}", r.property, path.display());
-                1
+            let child = ec
+                .env("ASAN_OPTIONS", "detect_leaks=0:abort_on_error=1:allocator_may_return_null=1")
+                .spawn();
+            let Ok(child) = child else {
+                eprintln!("harness error: cannot start the child process");
+                return 2;
+            };
+            let how = if attempt == 0 { "the recorded plan" } else { "the run regenerated from its seed" };
+            let st = wait_timeout(child, HANG_SECS + 10);
+            let _ = std::fs::remove_file(&journal);
+            match st {
+                Some(s) if s.success() => {}
+                Some(s) => {
+                    println!("reproduced with {how}: the child process died ({s:?})");
+                    println!("VIOLATION property={} replay={}", r.property, path.display());
+                    return 1;
+                }
+                None => {
+                    println!("reproduced with {how}: the child process did not finish within {} s (hang)", HANG_SECS + 10);
+                    println!("VIOLATION property={} replay={}", r.property, path.display());
+                    return 1;
+                }
             }
-            None => {
-                println!("reproduced: the child process did not finish within {} s (hang)", HANG_SECS + 10);
-                println!("VIOLATION property={} replay={}", r.property, path.display());
-                1
-            }
-        };
+        }
+        println!("the plan passes on this tree (expected {})", r.expect.clause);
+        return 0;
     }
     if let Some(p) = &r.prelude {
         println!("executing the prelude: runs {}..{} of seed {} first", p.from, p.to, p.seed);
